@@ -28,6 +28,16 @@ def unhexList : List Char → Option Bytes
     pure (UInt8.ofNat (x * 16 + y) :: r)
   | _ => none
 
+def unhex16List : List Char → Option (List Nat)
+  | [] => some []
+  | a :: b :: c :: d :: rest => do
+    let w ← nib a; let x ← nib b; let y ← nib c; let z ← nib d
+    let r ← unhex16List rest
+    pure ((w * 4096 + x * 256 + y * 16 + z) :: r)
+  | _ => none
+
+def unhex16 (s : String) : Option (List Nat) := if s == "-" then some [] else unhex16List s.toList
+
 def unhex (s : String) : Option Bytes := if s == "-" then some [] else unhexList s.toList
 
 def parseItems (s : String) : Option (List (Option Bytes)) :=
@@ -152,6 +162,7 @@ def extraOp (s : DState) (t : List String) : Option (World × Out) :=
   | ["from_utf8", d, x] => do
     let d ← d.toNat?
     let b ← unhex x
+    if (w.get d).isSome then pure (w, .bad) else
     if validUtf8 b then pure (build d b) else pure (w, .errUtf8)
   | ["from_utf8_lossy", d, x] => do
     let d ← d.toNat?
@@ -161,6 +172,25 @@ def extraOp (s : DState) (t : List String) : Option (World × Out) :=
     match withCapacity s.rf w.heap b.length with
     | (none, hp) => pure ({ w with heap := hp }, .panicAlloc)
     | (some r0, hp0) => pure (finishTemp w d (pushLoop s.rf w.statics hp0 r0 (lossyPushes b)))
+  | ["from_utf16", d, x] => do
+    let d ← d.toNat?
+    let u ← unhex16 x
+    if (w.get d).isSome then pure (w, .bad) else
+    match withCapacity s.rf w.heap u.length with
+    | (none, hp) => pure ({ w with heap := hp }, .panicAlloc)
+    | (some r0, hp0) =>
+      let items := decodeUtf16 u
+      -- an unpaired surrogate returns `Err` and drops the partial string
+      match pushLoop s.rf w.statics hp0 r0 items with
+      | .pcb hp r => match releaseRepr hp r with
+        | .ok hp' => pure ({ w with heap := hp' }, .errUtf16)
+        | .error e => pure (w, .ub e)
+      | other => pure (finishTemp w d other)
+  | ["from_utf16_lossy", d, x] => do
+    let d ← d.toNat?
+    let u ← unhex16 x
+    let items := (decodeUtf16 u).map fun o => match o with | some c => some c | none => some replacement
+    pure (step s.rf w (.collectChars d ((u.length + 1) / 2) items))
   | _ => none
 
 def obsLine (w0 w1 : World) (out : Out) : String :=
